@@ -7,6 +7,7 @@ package wire
 import (
 	"bytes"
 	"errors"
+	"fmt"
 	"io"
 	"net/http"
 	"strings"
@@ -500,6 +501,8 @@ type LoopExchange struct {
 	URL       string
 	Path      string
 	Result    *Result
+	Panicked  bool
+	Panic     any
 }
 
 // Loopback is an HTTPClient that reads the whole request body, runs the
@@ -509,6 +512,7 @@ type Loopback struct {
 	Handler http.Handler
 	mu      sync.Mutex
 	Log     []*LoopExchange
+	Panics  int // handler panics recovered (like net/http does)
 }
 
 // Do implements connect.HTTPClient.
@@ -525,11 +529,26 @@ func (l *Loopback) Do(req *http.Request) (*http.Response, error) {
 	ex := &LoopExchange{ReqHeader: req.Header.Clone(), ReqBody: body, URL: req.URL.String(), Path: req.URL.Path}
 	rec := NewRecorder()
 	sreq := ServerRequest(req.Context(), req.Method, req.URL.Path, req.Header, &ScriptedBody{Data: body}, 2)
-	l.Handler.ServeHTTP(rec, sreq)
+	func() {
+		// net/http recovers handler panics and kills the connection; do the same
+		defer func() {
+			if r := recover(); r != nil {
+				ex.Panicked = true
+				ex.Panic = r
+			}
+		}()
+		l.Handler.ServeHTTP(rec, sreq)
+	}()
 	ex.Result = rec.Finish()
 	l.mu.Lock()
 	l.Log = append(l.Log, ex)
+	if ex.Panicked {
+		l.Panics++
+	}
 	l.mu.Unlock()
+	if ex.Panicked {
+		return nil, fmt.Errorf("verif loopback: handler panicked: %v", ex.Panic)
+	}
 	return ResponseFromResult(req, ex.Result, nil), nil
 }
 
